@@ -15,6 +15,7 @@ RULE = ("G_live witness graphs (+ the repository's own test topology) under both
         "episode whose forced gate was reached or that ended with an immediate stop/next reset; distinct by spec digest x episode "
         "x ending")
 RULE += " Built later (thorough): 48 cases with seeded pauses at statement starts inside rex/asynchronous.py in every thread (sys.monitoring LINE events)."
+RULE += " Built later: tie family (zero delays, commensurate rates, buffered/skipped connections)."
 RULE += " Built later: G_wide family (overruns and blocking+skip allowed, no blocking fast->slow edge; supported since repairs 4f3d528/f3bcd76)."
 RULE += " Built later: blocking-cycle family (slow->fast blocking edge, blocking skipped back-edge, rate multiple <= 4, one starved connection worker)."
 RULE += " Built later: ring family (a bursty fast node between the supervisor and a slow node) that makes a lost wake-up in a connection's selection queue a deadlock."
@@ -72,6 +73,11 @@ def run_case(case):
         # isolation-only cases outside G_live: non-blocking graphs WITH computation overruns (drift, queued messages at stop);
         # a stall in run()/step() on such a graph is outside the supported class -> inconclusive, never a violation
         spec = S.rand_spec(case["spec_seed"], allow_blocking=False, allow_advance=False, overrun=True, n_max=4)
+    elif case.get("kind") == "tie":
+        # zero delays and commensurate rates (exact arrival/start ties) with buffered and skipped connections, inside G_wide; no
+        # advancing nodes: advance + zero delays + a skipped loop is a zero-time algebraic loop (tick k+1 fires at the same
+        # instant as the message of tick k that the supervisor step at that instant must also wait for), DESIGN 12-n
+        spec = S.rand_wide(case["spec_seed"], zero_bias=1.0, p_buffer=0.6, p_fwd_skip=0.4, n_max=4, live_ok=True, allow_advance=False)
     elif case.get("kind") == "fan":
         spec = S.rand_fan(case["spec_seed"])  # fast receiver, several slow non-blocking senders that listen to it
     elif case.get("kind") == "wide":
@@ -306,6 +312,7 @@ def plan(tier, seed):
     cases += [dict(name=f"iso-{i}", kind="iso", spec_seed=seed * 100057 + 7000 + i, clock="sim", timeout=300) for i in range(12 if tier == "quick" else 150)]
     cases += [dict(name=f"cyc-{i}", kind="cyc", spec_seed=seed * 100057 + 11000 + i, clock="sim", timeout=300) for i in range(10 if tier == "quick" else 120)]
     cases += [dict(name=f"wide-{i}", kind="wide", spec_seed=seed * 100057 + 15000 + i, clock="sim", timeout=300) for i in range(12 if tier == "quick" else 200)]
+    cases += [dict(name=f"tie-{i}", kind="tie", spec_seed=seed * 100057 + 19000 + i, clock="sim", timeout=300) for i in range(8 if tier == "quick" else 100)]
     cases += [dict(name=f"fan-{i}", kind="fan", spec_seed=seed * 100057 + 17000 + i, clock="sim", timeout=300) for i in range(6 if tier == "quick" else 60)]
     cases += [dict(name=f"blk-{i}", kind="blk", spec_seed=seed * 100057 + 13000 + i, clock="sim", timeout=300) for i in range(16 if tier == "quick" else 160)]
     cases += [dict(name=f"corpus-{i}", spec_seed=seed * 100057 + 9000 + i, corpus=i % 3, clock="sim", timeout=300) for i in range(3 if tier == "quick" else 12)]
